@@ -74,8 +74,8 @@ def _last_def_before(f, name: str, before: ast.AST):
     best = None
     for n in body_walk(f.node):
         if isinstance(n, ast.Assign) and len(n.targets) == 1 and isinstance(n.targets[0], ast.Name) and n.targets[0].id == name:
-            if (n.lineno, n.col_offset) < (before.lineno, before.col_offset):
-                if best is None or (n.lineno, n.col_offset) > (best.lineno, best.col_offset):
+            if n._ord < before._ord:
+                if best is None or n._ord > best._ord:
                     best = n
     return best.value if best is not None else None
 
@@ -355,7 +355,7 @@ def r02_3(ctx: Ctx):
         for c in body_walk(f.node):
             if isinstance(c, ast.Call) and isinstance(c.func, ast.Attribute) and c.func.attr == "to_individuals" and isinstance(c.func.value, ast.Name):
                 pname = c.func.value.id
-                later = [m for m in body_walk(f.node) if isinstance(m, ast.Call) and isinstance(m.func, ast.Attribute) and m.func.attr in MUTATORS and isinstance(m.func.value, ast.Name) and m.func.value.id == pname and (m.lineno, m.col_offset) > (c.lineno, c.col_offset)]
+                later = [m for m in body_walk(f.node) if isinstance(m, ast.Call) and isinstance(m.func, ast.Attribute) and m.func.attr in MUTATORS and isinstance(m.func.value, ast.Name) and m.func.value.id == pname and m._ord > c._ord]
                 if later:
                     obs.append(ctx.ob("R02.3", f, later[0], status=VIOLATION, detail=f"`{pname}` is mutated after to_individuals() handed out views of its rows: already returned individuals change"))
     if n < 8:
@@ -458,10 +458,19 @@ def r02_4(ctx: Ctx):
             obs.append(ctx.ob("R02.4", m, m.node, status=VIOLATION if not evals else INCONCLUSIVE, detail=f"{cname}.run evaluates the trial population {len(evals)} times", construct=f"{cname}:evaluate"))
             continue
         tv = evals[0].func.value.id
-        ev_pos = (evals[0].lineno, evals[0].col_offset)
-        early = [a for a in body_walk(m.node) if isinstance(a, ast.Attribute) and a.attr == "fitnesses" and isinstance(a.value, ast.Name) and a.value.id == tv and (a.lineno, a.col_offset) < ev_pos]
-        # the evaluated variable must be the one whose rows are selected afterwards and not be rebound after evaluate
-        rebinds = [n for n in body_walk(m.node) if isinstance(n, ast.Assign) and any(isinstance(t, ast.Name) and t.id == tv for t in n.targets) and (n.lineno, n.col_offset) > ev_pos]
+        # order by control flow, not by source position (inlined helper code keeps the helper's line numbers)
+        ev_nodes = [n for n in cfg.nodes if n.ast is not None and any(x is evals[0] for x in ast.walk(n.ast))]
+        early, rebinds = [], []
+        if ev_nodes:
+            E = ev_nodes[0]
+            for n in cfg.nodes:
+                if n.ast is None or n is E or n.kind in ("entry", "exit"):
+                    continue
+                reads = any(isinstance(a, ast.Attribute) and a.attr == "fitnesses" and isinstance(a.value, ast.Name) and a.value.id == tv for a in ast.walk(n.ast))
+                if reads and cfg.can_reach(n, E) and not cfg.can_reach(E, n):
+                    early.append(n)
+                if n.kind == "stmt" and isinstance(n.ast, ast.Assign) and any(isinstance(t, ast.Name) and t.id == tv for t in n.ast.targets) and cfg.can_reach(E, n):
+                    rebinds.append(n)
         ok = not early and not rebinds
         obs.append(ctx.ob("R02.4", m, evals[0], status=OK if ok else VIOLATION, detail=f"{cname}: `{tv}` is evaluated before its fitness is read and not rebound afterwards" if ok else f"{cname}: the trial population's fitness is read before evaluate() or the evaluated population is replaced afterwards", construct=f"{cname}:evaluate"))
     return obs
